@@ -3,6 +3,7 @@ package p19
 import (
 	"encoding/json"
 	"fmt"
+	"hash/fnv"
 	"regexp"
 	"runtime/debug"
 	"sort"
@@ -40,8 +41,14 @@ type sprintObs struct {
 	events   []string // masked event JSON
 	runs     []runObs
 	urnShape string // schemes+queries of the session contact's URNs (what both twins share)
+	urnRaw   string // the same URNs in full
 	hasURNs  bool
 	status   string
+
+	policy    string // redaction policy in force during the sprint according to the scenario: urns | none | unknown
+	restarted bool   // the session was marshalled and read back before this call
+	envKind   string // what the environment of the applied resume changed relative to the one in force: policy-only | policy+other | other-only | identical (+contact), "" = no environment
+	state     string // masked state digest after the sprint (obsOpts.digest)
 }
 
 type twinObs struct {
@@ -94,19 +101,30 @@ func liveURNLeaf(n wnode) bool {
 	return true
 }
 
+// obsOpts: how a twin is driven and what is recorded besides the walk.
+type obsOpts struct {
+	withEvents bool
+	restarts   map[int]bool // before these resumes (0-based) the session is marshalled and read back
+	digest     bool         // record the masked state digest after every sprint (taint detection for policy histories)
+}
+
 // observeTwin runs one twin to completion from a fresh drive.Load (which installs fresh deterministic
 // clock / UUID / random sources), walking the context of every run after every sprint.
 //   - tpls == nil: no templates; genTpl != nil: templates are generated from this twin's walk and recorded in tpls;
 //     genTpl == nil && tpls != nil: the recorded templates are evaluated.
-func observeTwin(scen *gen.Scenario, seed int64, tpls map[[2]int][]tplSpec, genTpl func(si, ri int, nodes []wnode) []tplSpec, withEvents bool) (*twinObs, error) {
+//
+// Every sprint is labelled with the redaction policy that the scenario says is in force (sprintObs.policy): the
+// policy of the trigger's environment, replaced by the policy of the environment of every resume that was applied.
+// This is the monitor's own model — the session's Environment() is what is under test.
+func observeTwin(scen *gen.Scenario, seed int64, tpls map[[2]int][]tplSpec, genTpl func(si, ri int, nodes []wnode) []tplSpec, o obsOpts) (*twinObs, error) {
 	rn, err := drive.Load(scen, seed)
 	if err != nil {
 		return nil, err
 	}
 	obs := &twinObs{}
 	si := 0
-	rn.RunAll(func(rec *drive.CallRecord) {
-		sp := sprintObs{kind: rec.Kind}
+	after := func(rec *drive.CallRecord, policy string, restarted bool) {
+		sp := sprintObs{kind: rec.Kind, policy: policy, restarted: restarted}
 		if rec.ResumeType != "" {
 			sp.kind += ":" + rec.ResumeType
 		}
@@ -123,7 +141,7 @@ func observeTwin(scen *gen.Scenario, seed int64, tpls map[[2]int][]tplSpec, genT
 		case rec.Err != nil:
 			sp.err = "error: " + errClass(rec.Err.Error())
 		}
-		if withEvents {
+		if o.withEvents {
 			for _, ej := range rec.EventsJSON {
 				sp.events = append(sp.events, maskEvent(ej))
 			}
@@ -133,12 +151,17 @@ func observeTwin(scen *gen.Scenario, seed int64, tpls map[[2]int][]tplSpec, genT
 			s := rec.Session
 			sp.status = string(s.Status())
 			if c := s.Contact(); c != nil {
-				var shape []string
+				var shape, raw []string
 				for _, u := range c.URNs() {
 					shape = append(shape, maskURN(u.String()))
+					raw = append(raw, u.String())
 				}
 				sp.urnShape = strings.Join(shape, " ")
+				sp.urnRaw = strings.Join(raw, " ")
 				sp.hasURNs = len(shape) > 0
+			}
+			if o.digest {
+				sp.state = stateDigest(rec.SessionAfter, st)
 			}
 			for ri, run := range s.Runs() {
 				ro := runObs{uuid: string(run.UUID()), status: string(run.Status())}
@@ -182,8 +205,113 @@ func observeTwin(scen *gen.Scenario, seed int64, tpls map[[2]int][]tplSpec, genT
 		}
 		obs.sprints = append(obs.sprints, sp)
 		si++
-	})
+	}
+
+	trigEnv, _ := asMap(scen.Trigger["environment"])
+	cur, curRest := policyOf(trigEnv), otherSettings(trigEnv)
+	rec := rn.Start()
+	after(rec, cur, false)
+	if !rec.OK() {
+		return obs, nil
+	}
+	for k, m := range scen.Resumes {
+		if !rn.Waiting() {
+			break
+		}
+		restarted := false
+		if o.restarts[k] {
+			fw.SetDetail(fmt.Sprintf("ReadSession(marshal) before resume %d", k))
+			if err := rn.Restart(); err != nil {
+				// the session does not read back: the persistence properties' business; here both twins must agree
+				obs.sprints = append(obs.sprints, sprintObs{kind: "restart", err: "restart: " + errClass(err.Error()), policy: "unknown"})
+				break
+			}
+			restarted = true
+		}
+		want, wantRest, envKind := cur, curRest, ""
+		if e, ok := asMap(map[string]any(m)["environment"]); ok {
+			want, wantRest = policyOf(e), otherSettings(e)
+			switch {
+			case want != cur && wantRest == curRest:
+				envKind = "policy-only"
+			case want != cur:
+				envKind = "policy+other"
+			case wantRest != curRest:
+				envKind = "other-only"
+			default:
+				envKind = "identical"
+			}
+			if _, ok := asMap(map[string]any(m)["contact"]); ok {
+				envKind += "+contact"
+			}
+		}
+		rec := rn.Resume(m)
+		eff := cur
+		switch {
+		case !rec.OK():
+			// not read / rejected by the wait / error: the resume was not applied, the session keeps its environment
+			envKind = ""
+		case want != cur && rec.Session != nil && rec.Session.Status() == flows.SessionStatusFailed:
+			// the session may have been failed before the resume was applied (missing flow, resume limit …): which
+			// environment the contexts are built with is not determined by the scenario alone
+			eff, cur, curRest = "unknown", "unknown", "unknown"
+		default:
+			eff, cur, curRest = want, want, wantRest
+		}
+		after(rec, eff, restarted)
+		obs.sprints[len(obs.sprints)-1].envKind = envKind
+		if rec.Panic != nil || rec.Budget {
+			break
+		}
+	}
 	return obs, nil
+}
+
+// otherSettings is the canonical text of an environment's JSON without the redaction policy.
+func otherSettings(env map[string]any) string {
+	rest := map[string]any{}
+	for k, v := range env {
+		if k != "redaction_policy" {
+			rest[k] = v
+		}
+	}
+	b, _ := json.Marshal(rest)
+	return string(b)
+}
+
+// stateDigest is a hash of everything a session persists (plus the position of the clock / UUID / random sources),
+// with the places that hold a contact's raw URNs reduced to what both twins share (scheme and query). Two twins with
+// equal digests after a sprint have stored nothing that was derived from the URNs' identifying part.
+func stateDigest(sessionJSON []byte, src drive.SourceState) string {
+	var m map[string]any
+	if err := json.Unmarshal(sessionJSON, &m); err != nil {
+		return "unparseable:" + string(sessionJSON)
+	}
+	maskAt(m, "contact", "urns")
+	maskAt(m, "input", "urn")
+	maskAt(m, "trigger", "contact", "urns")
+	maskAt(m, "trigger", "msg", "urn")
+	maskAt(m, "trigger", "call", "urn")
+	maskAt(m, "trigger", "run_summary", "contact", "urns")
+	if rs, ok := m["runs"].([]any); ok {
+		for _, r := range rs {
+			rm, ok := r.(map[string]any)
+			if !ok {
+				continue
+			}
+			evs, _ := rm["events"].([]any)
+			for i, e := range evs {
+				if em, ok := e.(map[string]any); ok {
+					maskEventMap(em)
+					evs[i] = em
+				}
+			}
+		}
+	}
+	b, _ := json.Marshal(m)
+	h := fnv.New64a()
+	h.Write(b)
+	return fmt.Sprintf("%016x/%d/%d/%d", h.Sum64(), src.Ticks, src.UUIDN, src.Rnd)
 }
 
 // ---------------------------------------------------------------------------------------------------
@@ -219,6 +347,12 @@ func maskEvent(ej []byte) string {
 	if err := json.Unmarshal(ej, &m); err != nil {
 		return string(ej)
 	}
+	maskEventMap(m)
+	b, _ := json.Marshal(m)
+	return string(b)
+}
+
+func maskEventMap(m map[string]any) {
 	switch m["type"] {
 	case "msg_created", "ivr_created", "msg_received":
 		maskAt(m, "msg", "urn") // destination / source of the message
@@ -233,8 +367,6 @@ func maskEvent(ej []byte) string {
 	case "contact_refreshed":
 		maskAt(m, "contact", "urns") // marshalled contact
 	}
-	b, _ := json.Marshal(m)
-	return string(b)
 }
 
 // ---------------------------------------------------------------------------------------------------
